@@ -219,7 +219,7 @@ def judge_unobserved(ctx, sc, e):
     ctx.inc("runs", 2)
     ctx.inc("calls", len(ra) + len(rb))
     ctx.inc("unobserved_run_pairs")
-    keep = ("op", "sleep", "strategy", "srec")
+    keep = ("op", "sleep", "strategy", "srec", "poll")
     for a, b in zip(ra, rb):
         pa = [x for x in a.trace if x[0] in keep]
         pb = [x for x in b.trace if x[0] in keep]
@@ -249,6 +249,14 @@ def unobserved_slice(ctx, tier, rng, entries=None, quick_n=500, thorough_n=12000
         sc["place"]["hooks"] = "none"
         if k % 3 == 0:
             sc["place"]["before_sleep"] = "none"
+        if k % 4 == 1:
+            # nobody watching, but somebody may still want to stop: an abort predicate (and nothing else) is passed
+            sc["poll"] = True
+            for c in sc["calls"]:
+                c["abort_at"] = rng.choice([0, 0, 1, 2, None])
+            ctx.inc("unobserved_scenarios_with_an_abort_predicate")
+        if k % 3 == 1:
+            sc["cfg"]["result_classifier"] = False  # the barest policy: classifier, strategy, limits
         for e in pick_entries(rng, entries or rig.ENTRIES, per):
             judge_unobserved(ctx, sc, e)
 
